@@ -242,14 +242,16 @@ class QueryMonitor(Monitor):
         evaluated(f"prop:{group}")
         if fn in C08_FUNCTIONS:
             evaluated("prop:C08")
-        w = {
-            "function": fn,
-            "records": [spec.rec_dict(r) for r in sp.recs],
-            "delimiter": sp.d,
-            "input": x,
-            "strict": strict,
-            "passthrough": pt,
-        }
+        def W():  # the witness is only built when there is something to report
+            return {
+                "function": fn,
+                "records": [spec.rec_dict(r) for r in sp.recs],
+                "delimiter": sp.d,
+                "input": x,
+                "strict": strict,
+                "passthrough": pt,
+            }
+
         kind, val = outcome
         if base is not None:
             ok = kind == "ret" and (
@@ -258,7 +260,7 @@ class QueryMonitor(Monitor):
             if not ok:
                 violation(
                     [group], f"{self.name}:{fn}", _mech(fn, sp, x, base, outcome),
-                    expected=base, observed=_obs(outcome), **w,
+                    expected=base, observed=_obs(outcome), **W(),
                 )
             return
         # the model says: no result.  What remains is failure reporting.
@@ -267,7 +269,7 @@ class QueryMonitor(Monitor):
         ):
             violation(
                 [group], f"{self.name}:{fn}", "answers-where-model-has-none",
-                expected=None, observed=_obs(outcome), **w,
+                expected=None, observed=_obs(outcome), **W(),
             )
             return
         if strict:
@@ -275,7 +277,7 @@ class QueryMonitor(Monitor):
                 violation(
                     ["C08"] if fn in C08_FUNCTIONS else [group], f"{self.name}:{fn}",
                     "strict-does-not-raise-library-error",
-                    expected="raises a curies ValueError subclass", observed=_obs(outcome), **w,
+                    expected="raises a curies ValueError subclass", observed=_obs(outcome), **W(),
                 )
         elif kind == "raise":
             mech = "raises-in-non-strict-mode"
@@ -283,14 +285,14 @@ class QueryMonitor(Monitor):
                 mech = "no-delimiter-raises-in-non-strict-mode"
             violation(
                 ["C08"] if fn in C08_FUNCTIONS else [group], f"{self.name}:{fn}", mech,
-                expected=pt_value if (has_pt and pt) else none_value, observed=_obs(outcome), **w,
+                expected=pt_value if (has_pt and pt) else none_value, observed=_obs(outcome), **W(),
             )
         else:
             want = pt_value if (has_pt and pt) else none_value
             if val != want:
                 violation(
                     ["C08"] if fn in C08_FUNCTIONS else [group], f"{self.name}:{fn}",
-                    "wrong-failure-value", expected=want, observed=_obs(outcome), **w,
+                    "wrong-failure-value", expected=want, observed=_obs(outcome), **W(),
                 )
 
     def _bool(self, fn, group, sp, x, outcome, want):
